@@ -60,7 +60,7 @@ Gs == {1, 2, 3}
 \* operands that are not what the API expects
 OddObj == {"x_none", "x_int", "x_builtin", "x_func", "x_super", "x_cls",
            "x_pbAttrErr", "x_pbValErr", "x_confVal", "x_confNone",
-           "x_confRaise", "x_slots", "x_provOther"}
+           "x_confRaise", "x_confInst", "x_slots", "x_provOther"}
 AnyObj == Obj \cup OddObj
 ImplSpec == {"impl:K1", "impl:K2", "impl:K3"}
 ProvSpec == {"prov:o1", "prov:o2"}
@@ -357,7 +357,10 @@ LookupMulti ==
 \* object-based entry points; the looked-up specification is providedBy(x)
 ObjLookup ==
     /\ On("look", {"ObjLookup", "ObjLookup#2"})
-    /\ \E f \in {"queryAdapter", "adapter_hook", "queryMulti1", "subscribers1"},
+    /\ \E f \in {"queryAdapter", "adapter_hook", "queryMulti1", "subscribers1",
+                 \* the same calls with every argument passed by keyword
+                 "queryAdapterKw", "adapterHookKw", "queryMulti1Kw",
+                 "lookupKw", "lookup1Kw"},
           g \in Gs, x \in AnyObj, p \in ProvR, nm \in GoodNames,
           d \in Defaults :
         /\ Emit([op |-> f, g |-> g, x |-> x, prov |-> p, name |-> nm,
